@@ -14,7 +14,7 @@ RULE = ('enumeration: number of records {0, 1, 4, 300, 2000, 20000} x record siz
         'x last record immediately before the end / after a pause x parent level {DEBUG, WARNING} x carrier {Process, ProcessServlet worker logging in '
         'cleanup (end-of-life burst), mpservice ProcessPoolExecutor task}. Records carry sequence numbers; the parent root handler records what it '
         'handles; after join()/result() the sequence handled must equal the sequence emitted filtered by the parent level. '
-        'non-trivial = >=300 records or a record emitted right before the end; distinct = distinct case tuples')
+        'non-trivial = >=300 records or a record emitted right before the end; distinct = distinct case tuples; parent level set on the root logger, on a named ancestor logger or on the handler')
 ASSUMPTIONS = ['join()/result() are bounded by 60 s (typical < 2 s) AND three identical stack samples => hang',
                'after join() the check waits (<= 10 s) until the expected count is handled or the parent logger thread of that process has ended; records '
                'missing once that thread has finished are a definitive loss']
